@@ -627,6 +627,8 @@ package psatoken
 //@ func (*Evidence).SetClaims
 //@   property C08 C19 C05
 //@   requires e != nil && claims != nil
+//@   ghostset bound(e) = false when ret == nil
+//@   ensures[inv] evInv(e) || (ret != nil && !old(evInv(e)))
 //@   ensures[gate] !claimsValid(claims, old(heapVer())) ==> ret != nil && e.Claims == old(e.Claims)
 //@   ensures[attach] claimsValid(claims, old(heapVer())) ==> ret == nil && e.Claims == claims
 //@   ensures[message] e.message == old(e.message)
@@ -806,7 +808,7 @@ package psatoken
 //@   ensures[value] ret == nil ==> *c == cborDecP1(bytesVal(buf), withField(old(*c), "Profile", nil))
 //@   ensures[fixed] c.CanonicalProfile == old(c.CanonicalProfile) && (c.SwComponents == old(c.SwComponents) || c.SwComponents == nil)
 //@   ensures[profile-cleared] c.Profile == nil || fresh(c.Profile)
-//@   ensures[copies] (c.ImplID != nil ==> noAlias(*c.ImplID, buf) || (c.ImplID == old(c.ImplID) && *c.ImplID == old(*c.ImplID))) && (c.BootSeed != nil ==> noAlias(*c.BootSeed, buf) || (c.BootSeed == old(c.BootSeed) && *c.BootSeed == old(*c.BootSeed))) && (c.Nonce != nil ==> noAlias(*c.Nonce, buf) || (c.Nonce == old(c.Nonce) && *c.Nonce == old(*c.Nonce))) && (c.InstID != nil ==> noAlias(*c.InstID, buf) || (c.InstID == old(c.InstID) && *c.InstID == old(*c.InstID)))
+//@   ensures[copies] (c.ImplID != nil ==> *c.ImplID == nil || fresh(*c.ImplID) || (c.ImplID == old(c.ImplID) && *c.ImplID == old(*c.ImplID))) && (c.BootSeed != nil ==> *c.BootSeed == nil || fresh(*c.BootSeed) || (c.BootSeed == old(c.BootSeed) && *c.BootSeed == old(*c.BootSeed))) && (c.Nonce != nil ==> *c.Nonce == nil || fresh(*c.Nonce) || (c.Nonce == old(c.Nonce) && *c.Nonce == old(*c.Nonce))) && (c.InstID != nil ==> *c.InstID == nil || fresh(*c.InstID) || (c.InstID == old(c.InstID) && *c.InstID == old(*c.InstID)))
 //@   modifies *c, *c.Profile, *c.ClientID, *c.SecurityLifeCycle, *c.ImplID, *c.BootSeed, *c.CertificationReference, *c.NoSwMeasurements, *c.Nonce, *c.InstID, *c.VSI, c.SwComponents.(*SwComponents[*SwComponent]).values
 
 //@ func (*P2Claims).UnmarshalCBOR
@@ -817,7 +819,7 @@ package psatoken
 //@   ensures[fixed] c.CanonicalProfile == old(c.CanonicalProfile) && (c.SwComponents == old(c.SwComponents) || c.SwComponents == nil)
 //@   ensures[profile-cleared] c.Profile == nil || fresh(c.Profile)
 //@   ensures[profile-set] ret == nil && c.Profile != nil ==> profSet(*c.Profile)
-//@   ensures[copies] (c.ImplID != nil ==> noAlias(*c.ImplID, buf) || (c.ImplID == old(c.ImplID) && *c.ImplID == old(*c.ImplID))) && (c.BootSeed != nil ==> noAlias(*c.BootSeed, buf) || (c.BootSeed == old(c.BootSeed) && *c.BootSeed == old(*c.BootSeed))) && (c.InstID != nil ==> noAlias([]byte(*c.InstID), buf) || (c.InstID == old(c.InstID) && *c.InstID == old(*c.InstID)))
+//@   ensures[copies] (c.ImplID != nil ==> *c.ImplID == nil || fresh(*c.ImplID) || (c.ImplID == old(c.ImplID) && *c.ImplID == old(*c.ImplID))) && (c.BootSeed != nil ==> *c.BootSeed == nil || fresh(*c.BootSeed) || (c.BootSeed == old(c.BootSeed) && *c.BootSeed == old(*c.BootSeed))) && (c.InstID != nil ==> *c.InstID == nil || fresh(*c.InstID) || (c.InstID == old(c.InstID) && *c.InstID == old(*c.InstID)))
 //@   modifies *c, *c.Profile, *c.ClientID, *c.SecurityLifeCycle, *c.ImplID, *c.BootSeed, *c.CertificationReference, *c.Nonce, *c.InstID, *c.VSI, c.SwComponents.(*SwComponents[*SwComponent]).values
 
 //@ func (*SwComponents[*SwComponent]).UnmarshalCBOR
@@ -834,13 +836,14 @@ package psatoken
 //@ spec cborProfile(b Int) string = ite(cborHas265(b), cborText265(b), "")
 
 //@ func DecodeClaimsFromCBOR
-//@   property C07 C16 C08 C05 C18 C04 C09 C20 C17
+//@   property C07 C16 C08 C05 C18 C04 C09 C20 C17 C02 C03 C19
+//@   ghostset prov(ret0) = bytesVal(buf) when ret1 == nil
 //@   ensures[err] ret1 != nil ==> ret0 == nil
 //@   ensures[malformed] !cborSelOK(bytesVal(buf)) ==> ret1 != nil
 //@   ensures[unregistered] cborSelOK(bytesVal(buf)) && !inDom(profilesRegister, cborProfile(bytesVal(buf))) ==> ret1 != nil
 //@   ensures[dispatch] ret1 == nil ==> cborSelOK(bytesVal(buf)) && inDom(profilesRegister, cborProfile(bytesVal(buf))) && ret0 != nil && fresh(ret0) && dynType(ret0) == profClaimsType(profilesRegister[cborProfile(bytesVal(buf))].Profile)
-//@   ensures[p1] ret1 == nil && (cborProfile(bytesVal(buf)) == "" || cborProfile(bytesVal(buf)) == "PSA_IOT_PROFILE_1") ==> typeIs(ret0, *P1Claims) && wfP1(*ret0.(*P1Claims)) && ret0.(*P1Claims).CanonicalProfile == "PSA_IOT_PROFILE_1" && specNoAliasP1(*ret0.(*P1Claims), buf)
-//@   ensures[p2] ret1 == nil && cborProfile(bytesVal(buf)) == "http://arm.com/psa/2.0.0" ==> typeIs(ret0, *P2Claims) && wfP2(*ret0.(*P2Claims)) && ret0.(*P2Claims).CanonicalProfile == "http://arm.com/psa/2.0.0" && specNoAliasP2(*ret0.(*P2Claims), buf)
+//@   ensures[p1] ret1 == nil && (cborProfile(bytesVal(buf)) == "" || cborProfile(bytesVal(buf)) == "PSA_IOT_PROFILE_1") ==> typeIs(ret0, *P1Claims) && wfP1(*ret0.(*P1Claims)) && ret0.(*P1Claims).CanonicalProfile == "PSA_IOT_PROFILE_1" && specFreshBytesP1(*ret0.(*P1Claims))
+//@   ensures[p2] ret1 == nil && cborProfile(bytesVal(buf)) == "http://arm.com/psa/2.0.0" ==> typeIs(ret0, *P2Claims) && wfP2(*ret0.(*P2Claims)) && ret0.(*P2Claims).CanonicalProfile == "http://arm.com/psa/2.0.0" && specFreshBytesP2(*ret0.(*P2Claims))
 //@   ensures[wf] ret1 == nil ==> (typeIs(ret0, *P1Claims) ==> wfP1(*ret0.(*P1Claims))) && (typeIs(ret0, *P2Claims) ==> wfP2(*ret0.(*P2Claims)))
 //@   modifies nothing
 
@@ -860,7 +863,7 @@ package psatoken
 //@   ensures[value] ret == nil ==> *c == jsonDecP1(bytesVal(buf), withField(old(*c), "Profile", nil))
 //@   ensures[fixed] c.CanonicalProfile == old(c.CanonicalProfile) && (c.SwComponents == old(c.SwComponents) || c.SwComponents == nil)
 //@   ensures[profile-cleared] c.Profile == nil || fresh(c.Profile)
-//@   ensures[copies] (c.ImplID != nil ==> noAlias(*c.ImplID, buf) || (c.ImplID == old(c.ImplID) && *c.ImplID == old(*c.ImplID))) && (c.BootSeed != nil ==> noAlias(*c.BootSeed, buf) || (c.BootSeed == old(c.BootSeed) && *c.BootSeed == old(*c.BootSeed))) && (c.Nonce != nil ==> noAlias(*c.Nonce, buf) || (c.Nonce == old(c.Nonce) && *c.Nonce == old(*c.Nonce))) && (c.InstID != nil ==> noAlias(*c.InstID, buf) || (c.InstID == old(c.InstID) && *c.InstID == old(*c.InstID)))
+//@   ensures[copies] (c.ImplID != nil ==> *c.ImplID == nil || fresh(*c.ImplID) || (c.ImplID == old(c.ImplID) && *c.ImplID == old(*c.ImplID))) && (c.BootSeed != nil ==> *c.BootSeed == nil || fresh(*c.BootSeed) || (c.BootSeed == old(c.BootSeed) && *c.BootSeed == old(*c.BootSeed))) && (c.Nonce != nil ==> *c.Nonce == nil || fresh(*c.Nonce) || (c.Nonce == old(c.Nonce) && *c.Nonce == old(*c.Nonce))) && (c.InstID != nil ==> *c.InstID == nil || fresh(*c.InstID) || (c.InstID == old(c.InstID) && *c.InstID == old(*c.InstID)))
 //@   modifies *c, *c.Profile, *c.ClientID, *c.SecurityLifeCycle, *c.ImplID, *c.BootSeed, *c.CertificationReference, *c.NoSwMeasurements, *c.Nonce, *c.InstID, *c.VSI, c.SwComponents.(*SwComponents[*SwComponent]).values
 
 //@ func (*P2Claims).UnmarshalJSON
@@ -871,7 +874,7 @@ package psatoken
 //@   ensures[fixed] c.CanonicalProfile == old(c.CanonicalProfile) && (c.SwComponents == old(c.SwComponents) || c.SwComponents == nil)
 //@   ensures[profile-cleared] c.Profile == nil || fresh(c.Profile)
 //@   ensures[profile-set] ret == nil && c.Profile != nil ==> profSet(*c.Profile)
-//@   ensures[copies] (c.ImplID != nil ==> noAlias(*c.ImplID, buf) || (c.ImplID == old(c.ImplID) && *c.ImplID == old(*c.ImplID))) && (c.BootSeed != nil ==> noAlias(*c.BootSeed, buf) || (c.BootSeed == old(c.BootSeed) && *c.BootSeed == old(*c.BootSeed))) && (c.InstID != nil ==> noAlias([]byte(*c.InstID), buf) || (c.InstID == old(c.InstID) && *c.InstID == old(*c.InstID)))
+//@   ensures[copies] (c.ImplID != nil ==> *c.ImplID == nil || fresh(*c.ImplID) || (c.ImplID == old(c.ImplID) && *c.ImplID == old(*c.ImplID))) && (c.BootSeed != nil ==> *c.BootSeed == nil || fresh(*c.BootSeed) || (c.BootSeed == old(c.BootSeed) && *c.BootSeed == old(*c.BootSeed))) && (c.InstID != nil ==> *c.InstID == nil || fresh(*c.InstID) || (c.InstID == old(c.InstID) && *c.InstID == old(*c.InstID)))
 //@   modifies *c, *c.Profile, *c.ClientID, *c.SecurityLifeCycle, *c.ImplID, *c.BootSeed, *c.CertificationReference, *c.Nonce, *c.InstID, *c.VSI, c.SwComponents.(*SwComponents[*SwComponent]).values
 
 //@ func (*SwComponents[*SwComponent]).UnmarshalJSON
@@ -923,4 +926,97 @@ package psatoken
 //@   property C08 C07 C12 C05 C17 C18
 //@   ensures[err] ret1 != nil ==> ret0 == nil
 //@   ensures[fresh] ret1 == nil ==> ret0 != nil && fresh(ret0)
+//@   modifies nothing
+
+// ---------------------------------------------------------------- evidence.go
+
+//@ func IClaims.GetInstID
+//@   option interface=true
+//@   option also-implementors=true
+//@   ensures true
+//@   modifies nothing
+
+//@ func IClaims.GetImplID
+//@   option interface=true
+//@   option also-implementors=true
+//@   ensures true
+//@   modifies nothing
+
+//@ func (*Evidence).GetInstanceID
+//@   property C05 C17 C18
+//@   requires e != nil && e.Claims != nil
+//@   ensures[fresh] ret == nil || fresh(ret)
+//@   modifies nothing
+
+//@ func (*Evidence).GetImplementationID
+//@   property C05 C17 C18
+//@   requires e != nil && e.Claims != nil
+//@   ensures[fresh] ret == nil || fresh(ret)
+//@   modifies nothing
+
+//@ func (*Evidence).Verify
+//@   property C02 C03 C19 C05 C17 C18
+//@   requires e != nil
+//@   ensures[nomsg] e.message == nil ==> ret != nil
+//@   ensures[iff] e.message != nil ==> ((ret == nil) == (hasAlg(mapVal(e.message.Headers.Protected)) && verifierOK(algOf(mapVal(e.message.Headers.Protected)), pk) && e.message.Payload != nil && len(e.message.Signature) > 0 && sigValid(pk, algOf(mapVal(e.message.Headers.Protected)), tbs(protOf(e.message), 0, bytesVal(e.message.Payload)), bytesVal(e.message.Signature))))
+//@   ensures[binding] ret == nil && evInv(e) && bound(e) ==> e.Claims == nil || prov(e.Claims) == bytesVal(e.message.Payload) || bytesVal(e.message.Payload) == cborEnc(e.Claims, signedAt(e))
+//@   modifies nothing
+
+//@ func (*Evidence).doSign
+//@   property C03 C19 C02 C05
+//@   requires e != nil && e.message != nil && signer != nil && e.message.Headers.Protected != nil
+//@   ensures[fail] ret1 != nil ==> ret0 == nil && (e.message.Signature == old(e.message.Signature) || len(e.message.Signature) == 0)
+//@   ensures[ok] ret1 == nil ==> ret0 != nil && fresh(ret0) && len(e.message.Signature) > 0 && len(old(e.message.Signature)) == 0 && e.message.Payload != nil && hasAlg(mapVal(e.message.Headers.Protected)) && algOf(mapVal(e.message.Headers.Protected)) == signerAlg(signer) && bytesVal(ret0) == coseEnc(protOf(e.message), mapVal(e.message.Headers.Unprotected), bytesVal(e.message.Payload), bytesVal(e.message.Signature)) && sigOver(e.message) == tbs(protOf(e.message), 0, bytesVal(e.message.Payload))
+//@   ensures[payload] e.message.Payload == old(e.message.Payload) && e.message == old(e.message)
+//@   modifies e.message.Signature, mapOf(e.message.Headers.Protected)
+
+//@ func (*Evidence).Sign
+//@   property C03 C19 C08 C05
+//@   requires e != nil && signer != nil && evInv(e)
+//@   ghostset bound(e) = true when ret1 == nil
+//@   ghostset signedAt(e) = old(heapVer()) when ret1 == nil
+//@   ensures[fresh-msg] e.message != nil && fresh(e.message)
+//@   ensures[fail] ret1 != nil ==> ret0 == nil && len(e.message.Signature) == 0
+//@   ensures[ok] ret1 == nil ==> ret0 != nil && cborEncOK(e.Claims, old(heapVer())) && bytesVal(e.message.Payload) == cborEnc(e.Claims, old(heapVer())) && hasAlg(mapVal(e.message.Headers.Protected)) && algOf(mapVal(e.message.Headers.Protected)) == signerAlg(signer) && len(e.message.Signature) > 0 && bytesVal(ret0) == coseEnc(protOf(e.message), mapVal(e.message.Headers.Unprotected), bytesVal(e.message.Payload), bytesVal(e.message.Signature)) && sigOver(e.message) == tbs(protOf(e.message), 0, bytesVal(e.message.Payload))
+//@   ensures[claims] e.Claims == old(e.Claims)
+//@   ensures[inv] evInv(e)
+//@   modifies e.message
+
+//@ func (*Evidence).ValidateAndSign
+//@   property C03 C19 C08 C05
+//@   requires e != nil && signer != nil && e.Claims != nil && evInv(e)
+//@   ghostset bound(e) = true when ret1 == nil
+//@   ghostset signedAt(e) = old(heapVer()) when ret1 == nil
+//@   ensures[gate] !claimsValid(e.Claims, old(heapVer())) ==> ret0 == nil && ret1 != nil
+//@   ensures[fresh-msg] e.message != nil && fresh(e.message)
+//@   ensures[fail] ret1 != nil ==> ret0 == nil && len(e.message.Signature) == 0
+//@   ensures[ok] ret1 == nil ==> ret0 != nil && claimsValid(e.Claims, old(heapVer())) && cborEncOK(e.Claims, old(heapVer())) && bytesVal(e.message.Payload) == cborEnc(e.Claims, old(heapVer())) && hasAlg(mapVal(e.message.Headers.Protected)) && algOf(mapVal(e.message.Headers.Protected)) == signerAlg(signer) && len(e.message.Signature) > 0 && bytesVal(ret0) == coseEnc(protOf(e.message), mapVal(e.message.Headers.Unprotected), bytesVal(e.message.Payload), bytesVal(e.message.Signature)) && sigOver(e.message) == tbs(protOf(e.message), 0, bytesVal(e.message.Payload))
+//@   ensures[claims] e.Claims == old(e.Claims)
+//@   ensures[inv] evInv(e)
+//@   modifies e.message
+
+//@ func (*Evidence).UnmarshalCOSE
+//@   property C02 C03 C19 C20 C05 C18
+//@   requires e != nil
+//@   ghostset bound(e) = true when ret == nil
+//@   ensures[fresh-msg] e.message != nil && fresh(e.message)
+//@   ensures[envelope] !coseDecOK(bytesVal(cwt)) ==> ret != nil && e.Claims == old(e.Claims) && len(e.message.Signature) == 0 && e.message.Payload == nil
+//@   ensures[claims-fail] coseDecOK(bytesVal(cwt)) && ret != nil ==> e.Claims == nil
+//@   ensures[ok] ret == nil ==> coseDecOK(bytesVal(cwt)) && e.Claims != nil && fresh(e.Claims) && prov(e.Claims) == bytesVal(e.message.Payload) && bytesVal(e.message.Payload) == cosePayload(bytesVal(cwt)) && bytesVal(e.message.Signature) == coseSig(bytesVal(cwt)) && protOf(e.message) == protId(coseRawProt(bytesVal(cwt)), coseProtMap(bytesVal(cwt))) && cborSelOK(bytesVal(e.message.Payload)) && inDom(profilesRegister, cborProfile(bytesVal(e.message.Payload)))
+//@   ensures[copies] ret == nil ==> (e.message.Payload == nil || fresh(e.message.Payload)) && fresh(e.message.Signature)
+//@   ensures[inv] evInv(e)
+//@   modifies e.message, e.Claims
+
+//@ func DecodeEvidenceFromCOSE
+//@   property C02 C03 C19 C20 C05 C18 C08
+//@   ensures[err] ret1 != nil ==> ret0 == nil
+//@   ensures[ok] ret1 == nil ==> ret0 != nil && fresh(ret0) && coseDecOK(bytesVal(buf)) && ret0.Claims != nil && ret0.message != nil && prov(ret0.Claims) == bytesVal(ret0.message.Payload) && bytesVal(ret0.message.Payload) == cosePayload(bytesVal(buf)) && cborSelOK(cosePayload(bytesVal(buf))) && evInv(ret0) && bound(ret0)
+//@   ensures[reject] !coseDecOK(bytesVal(buf)) || !cborSelOK(cosePayload(bytesVal(buf))) ==> ret1 != nil
+//@   modifies nothing
+
+//@ func DecodeAndValidateEvidenceFromCOSE
+//@   property C08 C20 C05 C18
+//@   ensures[err] ret1 != nil ==> ret0 == nil
+//@   ensures[gate] ret1 == nil ==> ret0 != nil && ret0.Claims != nil && claimsValid(ret0.Claims, heapVer())
+//@   ensures[ok] ret1 == nil ==> coseDecOK(bytesVal(buf)) && fresh(ret0) && evInv(ret0)
 //@   modifies nothing
